@@ -237,6 +237,17 @@ def run(ctx):
                     vb = {v for n, v in rb.get(D, []) if n.lower() == e.lower()}
                     if va and not va <= vb:
                         ediff.append((lab, D, e, sorted(va), sorted(vb)))
+            # ... and the op-code every backend's stub and skeleton uses for a pre-existing method
+            # (resolved to its number: a macro that is redefined or renamed changes it silently)
+            oa = dict(scrape_tables(os.path.join(work, "cases", "%dA" % k), A, emitted[(k, "A")], "ops"))
+            ob = dict(scrape_tables(os.path.join(work, "cases", "%dB" % k), B, emitted[(k, "B")], "ops"))
+            for lab in oa:
+                ra, rb = dict(oa[lab]), dict(ob.get(lab, []))
+                for (D, mth) in ms:
+                    va = {v for n, v in ra.get(D, []) if n == mth}
+                    vb = {v for n, v in rb.get(D, []) if n == mth}
+                    if va and va != vb:
+                        ediff.append((lab, D, mth, sorted(va, key=str), sorted(vb, key=str)))
         except Exception as ex:
             res["corr_broken"].append({"kind": "scraper", "detail": "error tables of pair %d could not be scraped: %r" % (k, ex)})
             ediff = []
@@ -266,7 +277,7 @@ def run(ctx):
         if fl[6]:
             res["failures"].append(dict(payload, what="an appended method reuses an op-code the old revision dispatches"))
         if meta[k].get("ediff"):
-            res["failures"].append(dict(payload, what="the value a backend prints for a pre-existing error changed: %s" % meta[k]["ediff"][:4]))
+            res["failures"].append(dict(payload, what="the number a backend uses for a pre-existing error or method changed: %s" % meta[k]["ediff"][:4]))
         if meta[k]["fdiff"]:
             res["failures"].append(dict(payload, what="generated fragment of a pre-existing method changed: %s" % meta[k]["fdiff"][:4]))
         nfrag += meta[k]["frag_checked"]
